@@ -417,7 +417,8 @@ func (set *Set) MarkHostHealthy(host *Host) bool {
 	}
 	set.Lock()
 	defer set.Unlock()
-	if _, ok := set.all[host.Addr]; !ok {
+	// ignore hosts that are not (or no longer) the member for this address.
+	if cur, ok := set.all[host.Addr]; !ok || cur != host {
 		return false
 	}
 	set.addToHealthy(host)
@@ -431,7 +432,8 @@ func (set *Set) MarkHostUnhealthy(host *Host) bool {
 	}
 	set.Lock()
 	defer set.Unlock()
-	if _, ok := set.all[host.Addr]; !ok {
+	// ignore hosts that are not (or no longer) the member for this address.
+	if cur, ok := set.all[host.Addr]; !ok || cur != host {
 		return false
 	}
 	set.removeFromHealthy(host)
